@@ -24,7 +24,14 @@ class Module:
             self.pytext = self.desugar(self.text)
         else:
             self.pytext = self.text
-        self.tree = ast.parse(self.pytext)
+        self.parse_error = None
+        try:
+            self.tree = ast.parse(self.pytext)
+        except SyntaxError as ex:
+            # outside the desugarer's subset (e.g. C pointers): no function of this module binds to a contract;
+            # the checks report the obligations as not generated (undecided unless the bounded driver finds a failing input)
+            self.parse_error = 'line %s: %s' % (ex.lineno, ex.msg)
+            self.tree = ast.parse('')
         self.funcs = {}
         self.classes = {}
         for n in self.tree.body:
@@ -197,6 +204,8 @@ class Sources:
         rel, q = key.split('::')
         m = self.module(rel)
         if q not in m.funcs:
+            if m.parse_error:
+                raise KeyError('%s could not be brought into the verified subset (%s)' % (rel, m.parse_error))
             raise KeyError('function %s not found in %s (renamed or removed?)' % (q, rel))
         return m.funcs[q]
 
